@@ -223,6 +223,11 @@ def random_static_world(rng, n_user=None, max_methods=5, abstract=False, kinds_b
             kw = ()
             if use_kw and rng.random() < 0.7:
                 kw = [(kwname, rng.randint(1, n), rng.random() < 0.5)]
+                if rng.random() < 0.4:
+                    # a second, defaulted keyword-only parameter
+                    kw.append(("m", rng.randint(1, n), False))
+            elif use_kw and rng.random() < 0.3:
+                kw = [("m", rng.randint(1, n), False)]
             m = mkmethod(f"m{j + 1}", j + 1, types, prio=rng.choice(prios), reqpos=reqpos, kw=kw)
         b = body_mode
         if b == "fnext" and m["kwn"]:
@@ -247,8 +252,13 @@ def random_static_world(rng, n_user=None, max_methods=5, abstract=False, kinds_b
             allc.append(tup)
     rng.shuffle(allc)
     for tup in allc[:24]:
-        if use_kw and rng.random() < 0.6:
+        r = rng.random()
+        if use_kw and r < 0.4:
             calls.append(mkcall(tup, [(kwname, rng.choice(cs))]))
+        elif use_kw and r < 0.55:
+            calls.append(mkcall(tup, [("m", rng.choice(cs))]))
+        elif use_kw and r < 0.7:
+            calls.append(mkcall(tup, [(kwname, rng.choice(cs)), ("m", rng.choice(cs))]))
         else:
             calls.append(mkcall(tup))
     return w, calls
